@@ -26,6 +26,13 @@ fn main() {
     let (nr, ne) = if thorough { (12000, 8000) } else { (1200, 1000) };
     random_blocks(&mut run, &mut rng, nr, 50);
     random_e2e(&mut run, &mut rng, ne, 55);
+    let glue_programs = if thorough { 6000 } else { 500 };
+    run.note(&format!(
+        "glue stream (Model/DefaultInfo.v): {glue_programs} random + {} fixed Quil-T programs; per block, Coq recomputes \
+         every DefaultHandler summary (role, is_scheduled, used/blocked frame numbers) from the abstract instruction and \
+         compares it with what the real DefaultHandler reported (verdict 1 on mismatch)",
+        FIXED_E2E.len()
+    ));
     run.finish(
         "exhaustive: every block over the 14-summary alphabet (classical/RF summaries over 2 frames and 2 regions) \
          up to length 2 (thorough 3) and over an 8-summary sub-alphabet up to length 3 (thorough 4), each x {no terminator, \
@@ -35,12 +42,284 @@ fn main() {
          InstructionHandler; random and fixed Quil-T programs through the DefaultHandler. One case per basic block. \
          Distinct by block description; non-trivial = the block builds and has >= 2 instructions.",
         true,
-        serde_json::json!({"exhaustive_cases": exhaustive_cases, "random_abstract_programs": nr, "random_quilt_programs": ne}),
+        serde_json::json!({"exhaustive_cases": exhaustive_cases, "random_abstract_programs": nr, "random_quilt_programs": ne,
+                           "glue_programs": glue_programs}),
     );
+    glue::stream(&args, glue_programs);
+}
+
+/// Validation of the Coq glue `default_info` (coq/Model/DefaultInfo.v) against the real
+/// `DefaultHandler`: a second case stream with its own case type, written with a second `Run`
+/// into a sibling directory and then appended to the main run (shards renumbered, cases.txt and
+/// meta.json merged) so that the driver evaluates it like any other shard.
+mod glue {
+    use super::graphgen::*;
+    use qv::{gallina as g, Args, Rng, Run};
+    use quil_rs::instruction::{ExternSignatureMap, FrameIdentifier, Instruction, Qubit};
+    use quil_rs::program::analysis::ControlFlowGraph;
+    use quil_rs::quil::Quil;
+    use quil_rs::Program;
+    use std::str::FromStr;
+
+    const HEADER: &str = "From Coq Require Import List NArith.\nFrom QV Require Import Model.DepQueue Model.Frames Model.Graph Model.DefaultInfo.\nImport ListNotations.\nOpen Scope N_scope.";
+
+    fn qubits(qs: &[Qubit]) -> Option<Vec<u64>> {
+        qs.iter().map(|q| if let Qubit::Fixed(n) = q { Some(*n) } else { None }).collect()
+    }
+    fn nl(v: &[u64]) -> String {
+        g::list(&v.iter().map(|x| x.to_string()).collect::<Vec<_>>())
+    }
+    fn frame(f: &FrameIdentifier, names: &mut Interner) -> Option<String> {
+        Some(format!("({}, {})", nl(&qubits(&f.qubits)?), names.id(&f.name)))
+    }
+
+    /// The abstract instruction: (Frames.finstr literal, okind).  The okind table transliterates the
+    /// comment on `okind` in Model/DefaultInfo.v; it does NOT consult the handler.
+    fn abstract_instruction(i: &Instruction, names: &mut Interner) -> Option<(String, &'static str)> {
+        use Instruction::*;
+        let play = |k: &str, blocking: bool, f: String| format!("FPlay {k} {} {f}", g::boolean(blocking));
+        let fi = match i {
+            Pulse(p) => play("KPulse", p.blocking, frame(&p.frame, names)?),
+            Capture(c) => play("KCapture", c.blocking, frame(&c.frame, names)?),
+            RawCapture(c) => play("KRawCapture", c.blocking, frame(&c.frame, names)?),
+            Delay(d) => {
+                let ns: Vec<u64> = d.frame_names.iter().map(|n| names.id(n)).collect();
+                format!("FDelay {} {}", nl(&qubits(&d.qubits)?), nl(&ns))
+            }
+            Fence(f) => format!("FFence {}", nl(&qubits(&f.qubits)?)),
+            Reset(r) => match &r.qubit {
+                None => "FReset None".to_string(),
+                Some(Qubit::Fixed(q)) => format!("FReset (Some {q})"),
+                Some(_) => return None,
+            },
+            SetFrequency(x) => format!("FUpdate KSetFrequency {}", frame(&x.frame, names)?),
+            SetPhase(x) => format!("FUpdate KSetPhase {}", frame(&x.frame, names)?),
+            SetScale(x) => format!("FUpdate KSetScale {}", frame(&x.frame, names)?),
+            ShiftFrequency(x) => format!("FUpdate KShiftFrequency {}", frame(&x.frame, names)?),
+            ShiftPhase(x) => format!("FUpdate KShiftPhase {}", frame(&x.frame, names)?),
+            SwapPhases(x) => format!("FSwapPhases {} {}", frame(&x.frame_1, names)?, frame(&x.frame_2, names)?),
+            _ => "FOther".to_string(),
+        };
+        let other = match i {
+            Arithmetic(_) | Call(_) | Comparison(_) | Convert(_) | BinaryLogic(_) | UnaryLogic(_) | Move(_)
+            | Exchange(_) | Load(_) | Nop() | Pragma(_) | Store(_) => "OClassical",
+            Halt() | Jump(_) | JumpWhen(_) | JumpUnless(_) => "OJump",
+            Wait() => "OWait",
+            // definitions, DECLARE, gates, INCLUDE, LABEL, MEASURE; also the field nobody reads for frame instructions
+            _ => "OCompose",
+        };
+        Some((fi, other))
+    }
+
+    fn dinstr(i: &Instruction, info: &Info, names: &mut Interner) -> Option<String> {
+        let (fi, other) = abstract_instruction(i, names)?;
+        let mem = if info.memerr {
+            "None".to_string()
+        } else {
+            format!("(Some ({}, {}, {}))", nl(&info.reads), nl(&info.writes), nl(&info.caps))
+        };
+        Some(format!("(MkD ({fi}) {other} {mem})"))
+    }
+
+    /// Emulated handler bugs (QV_MUTANT=8, 9), applied to the reported summary.
+    fn mutate_info(i: &Instruction, info: &mut Info) {
+        let k: u32 = std::env::var("QV_MUTANT").ok().and_then(|s| s.parse().ok()).unwrap_or(0);
+        match k {
+            // 8: is_scheduled loses its RESET arm: RESET reported as scheduled
+            8 => {
+                if matches!(i, Instruction::Reset(_)) {
+                    info.sched = true;
+                }
+            }
+            // 9: a blocking pulse reports the frames sharing a qubit as used instead of blocked
+            9 => {
+                if matches!(i, Instruction::Pulse(_)) {
+                    let b = std::mem::take(&mut info.blocked);
+                    info.used.extend(b);
+                    info.used.sort();
+                }
+            }
+            _ => {}
+        }
+    }
+
+    fn program_cases(run: &mut Run, text: &str) {
+        let program = match Program::from_str(text) {
+            Ok(p) => p,
+            Err(_) => return, // reported by the main stream
+        };
+        let ext = ExternSignatureMap::try_from(program.extern_pragma_map.clone()).unwrap_or_default();
+        let mut names = Interner::new();
+        let mut frames = Interner::new();
+        let mut regions = Interner::new();
+        // frame numbering exactly as graphgen::e2e_blocks: position in the sorted key list
+        let mut keys: Vec<&FrameIdentifier> = program.frames.get_keys();
+        keys.sort_by_key(|k| k.to_quil_or_debug());
+        let mut key_lits = vec![];
+        for k in keys.iter() {
+            frames.id(&k.to_quil_or_debug());
+            match frame(k, &mut names) {
+                Some(l) => key_lits.push(l),
+                None => return,
+            }
+        }
+        let mut avail = match qubits(&program.get_used_qubits().iter().cloned().collect::<Vec<_>>()) {
+            Some(a) => a,
+            None => return,
+        };
+        avail.sort();
+        let body = text.strip_prefix(E2E_HEADER).unwrap_or(text).replace('\n', "; ");
+        for (bi, bb) in ControlFlowGraph::from(&program).into_blocks().into_iter().enumerate() {
+            let mut ds = vec![];
+            let mut obs = vec![];
+            let mut ok = true;
+            let mut frame_related = 0;
+            for i in bb.instructions().iter() {
+                let mut info = default_info(&program, &ext, &mut frames, &mut regions, i);
+                match dinstr(i, &info, &mut names) {
+                    Some(d) => ds.push(d),
+                    None => ok = false,
+                }
+                if info.role == 1 {
+                    frame_related += 1;
+                }
+                mutate_info(i, &mut info);
+                obs.push(info.coq());
+            }
+            let term = bb.terminator().clone().into_instruction();
+            let mut dt = None;
+            let mut obst = None;
+            if let Some(t) = &term {
+                let info = default_info(&program, &ext, &mut frames, &mut regions, t);
+                match dinstr(t, &info, &mut names) {
+                    Some(d) => dt = Some(d),
+                    None => ok = false,
+                }
+                obst = Some(info.coq());
+            }
+            if !ok {
+                continue;
+            }
+            let coq = format!(
+                "({}, {}, {}, {}, {}, {})",
+                g::list(&key_lits),
+                nl(&avail),
+                g::list(&ds),
+                g::option(dt),
+                g::list(&obs),
+                g::option(obst)
+            );
+            run.count(&format!("glue:rf-instructions={}", frame_related.min(9)));
+            run.case(coq, &format!("G block {bi} of: {body}"), frame_related >= 1, None);
+        }
+    }
+
+    fn random_text(rng: &mut Rng) -> String {
+        let mut text = String::from(E2E_HEADER);
+        let nblocks = if rng.chance(1, 3) { rng.range(2, 3) } else { 1 };
+        for bi in 0..nblocks {
+            if bi > 0 {
+                text.push_str(&format!("LABEL @b{bi}\n"));
+            }
+            for _ in 0..rng.range(1, 8) {
+                let r = rng.below(100);
+                let line = if r < 70 {
+                    *rng.pick(E2E_RF)
+                } else if r < 92 {
+                    *rng.pick(E2E_CLASSICAL)
+                } else {
+                    *rng.pick(E2E_BAD)
+                };
+                text.push_str(line);
+                text.push('\n');
+            }
+            match rng.below(6) {
+                0 => text.push_str(&format!("JUMP @b{}\n", rng.below(nblocks))),
+                1 => text.push_str(&format!("JUMP-WHEN @b{} ro[{}]\n", rng.below(nblocks), rng.below(4))),
+                2 => text.push_str(&format!("JUMP-UNLESS @b{} ro[{}]\n", rng.below(nblocks), rng.below(4))),
+                3 => text.push_str("HALT\n"),
+                _ => {}
+            }
+        }
+        text
+    }
+
+    pub fn stream(args: &Args, programs: usize) {
+        let dir = args.out.with_file_name(format!(
+            "{}_glue",
+            args.out.file_name().and_then(|s| s.to_str()).unwrap_or("cases")
+        ));
+        let mut run = Run::new(&dir, HEADER, "dcase", "dfailing", 400);
+        for t in FIXED_E2E {
+            program_cases(&mut run, &format!("{E2E_HEADER}{t}"));
+        }
+        let mut rng = Rng::new(args.seed ^ 0x6c75_65);
+        for _ in 0..programs {
+            let text = random_text(&mut rng);
+            program_cases(&mut run, &text);
+        }
+        run.finish("glue", false, serde_json::json!({}));
+        merge(&args.out, &dir);
+    }
+
+    pub fn replay(rest: &str) {
+        let body = rest.split_once(" of: ").map(|x| x.1).unwrap_or(rest).replace("; ", "\n");
+        let text = format!("{E2E_HEADER}{body}");
+        println!("program:\n{text}");
+        let tmp = std::env::temp_dir().join("qv-c22-replay");
+        let mut run = Run::new(&tmp, HEADER, "dcase", "dfailing", 50);
+        program_cases(&mut run, &text);
+        run.finish("replay", false, serde_json::json!({}));
+        println!("{}", std::fs::read_to_string(tmp.join("shard_0.v")).unwrap_or_default());
+    }
+
+    /// Append the run in `extra` to the run in `main`.
+    fn merge(main: &std::path::Path, extra: &std::path::Path) {
+        use serde_json::Value;
+        let read = |d: &std::path::Path| -> Value {
+            serde_json::from_str(&std::fs::read_to_string(d.join("meta.json")).expect("meta.json")).expect("json")
+        };
+        let mut m = read(main);
+        let e = read(extra);
+        let base = m["shards"].as_u64().unwrap_or(0);
+        let n = e["shards"].as_u64().unwrap_or(0);
+        for k in 0..n {
+            std::fs::rename(extra.join(format!("shard_{k}.v")), main.join(format!("shard_{}.v", base + k))).expect("move shard");
+        }
+        let mut cases = std::fs::read_to_string(main.join("cases.txt")).unwrap_or_default();
+        for line in std::fs::read_to_string(extra.join("cases.txt")).unwrap_or_default().lines() {
+            if let Some((k, rest)) = line.split_once(' ') {
+                let k: u64 = k.parse().expect("shard index");
+                cases.push_str(&format!("{} {rest}\n", base + k));
+            }
+        }
+        std::fs::write(main.join("cases.txt"), cases).expect("cases.txt");
+        for key in ["shards", "evaluations", "distinct", "distinct_nontrivial"] {
+            m[key] = Value::from(m[key].as_u64().unwrap_or(0) + e[key].as_u64().unwrap_or(0));
+        }
+        if let (Some(md), Some(ed)) = (m["distribution"].as_object().cloned(), e["distribution"].as_object()) {
+            let mut md = md;
+            for (k, v) in ed {
+                md.insert(k.clone(), v.clone());
+            }
+            m["distribution"] = Value::Object(md);
+        }
+        if let (Some(mp), Some(ep)) = (m["process_failures"].as_array().cloned(), e["process_failures"].as_array()) {
+            let mut mp = mp;
+            mp.extend(ep.iter().cloned());
+            m["process_failures"] = Value::Array(mp);
+        }
+        std::fs::write(main.join("meta.json"), serde_json::to_string_pretty(&m).unwrap()).expect("meta.json");
+        let _ = std::fs::remove_dir_all(extra);
+    }
 }
 
 fn replay(case: &str) {
     println!("replaying: {case}");
+    if let Some(rest) = case.strip_prefix("G ") {
+        glue::replay(rest);
+        return;
+    }
     let tmp = std::env::temp_dir().join("qv-c22-replay");
     let mut run = Run::new(&tmp, COQ_HEADER, CASE_TYPE, "gfailing 22", 10);
     if let Some(rest) = case.strip_prefix("A ") {
